@@ -1,7 +1,7 @@
 //! C19: ROM validation.
 //!
 //! `c19.hdr` (in-process): a `Header` is made from any 80 bytes by transmute (it is `repr(C, packed)`, all fields u8).
-//!   line: c19.hdr hdr=<80 bytes hex> | valid=<0|1> banks=<n> rombytes=<n> rambytes=<n> cart=<0|1|3|n|panic> pmsg=<msg>
+//!   line: c19.hdr hdr=<80 bytes hex> | valid=<0|1> banks=<n> rombytes=<n> rambytes=<n> cart=<0|1|3|n|panic> pmsg=<msg> title=<hex of get_title()|-|panic>
 //!   `cart` identifies the state `create_cart_state` built by its behaviour on a 128-bank twin header (write 0x7f
 //!   to 0x2000, read the bank: NullCartState 1, MBC1 0x1f, MBC3 0x7f); its panic is a plain Rust panic, caught
 //!   with catch_unwind.
@@ -91,8 +91,13 @@ fn hdr_line(bytes: [u8; 80], w: &mut dyn Write) {
     }
     _ => ("inconsistent".to_string(), "-".to_string()),
   };
-  writeln!(w, "c19.hdr hdr={} | valid={} banks={} rombytes={} rambytes={} cart={} pmsg={}",
-    hex(&bytes), valid as u8, banks, romb, ramb, cart, pmsg).unwrap();
+  // what `load_rom` prints in the Loading line; the title bytes are whatever the file holds
+  let title = match std::panic::catch_unwind(std::panic::AssertUnwindSafe(|| h.get_title())) {
+    Ok(t) => if t.is_empty() { "-".to_string() } else { hex(t.as_bytes()) },
+    Err(_) => "panic".to_string(),
+  };
+  writeln!(w, "c19.hdr hdr={} | valid={} banks={} rombytes={} rambytes={} cart={} pmsg={} title={}",
+    hex(&bytes), valid as u8, banks, romb, ramb, cart, pmsg, title).unwrap();
 }
 
 fn run_hdr(opts: &Opts, w: &mut dyn Write) {
@@ -159,6 +164,21 @@ fn run_hdr(opts: &Opts, w: &mut dyn Write) {
       hdr_line(h, w);
     }
   }
+  // (4) titles: the regression corpus, then generated byte strings (what get_title makes of them)
+  for bt in BAD_TITLES.iter() {
+    let mut h = random_header(&mut rng);
+    for b in h[OFF_TITLE..OFF_TITLE + 11].iter_mut() { *b = 0; }
+    h[OFF_TITLE..OFF_TITLE + bt.len()].copy_from_slice(bt);
+    h[OFF_CHK] = good_checksum(&h);
+    hdr_line(h, w);
+  }
+  let nt = if opts.thorough { 60000 } else { 3000 };
+  for _ in 0..nt {
+    let mut h = random_header(&mut rng);
+    let t = wild_title(&mut rng);
+    h[OFF_TITLE..OFF_TITLE + 11].copy_from_slice(&t);
+    hdr_line(h, w);
+  }
   let _ = std::panic::take_hook();
 }
 
@@ -208,11 +228,48 @@ fn ascii_title(rng: &mut Rng) -> [u8; 11] {
   t
 }
 
-/// a header for the file stream: entry NOP; JP 0x150, random bytes elsewhere, ASCII title, valid checksum
+/// title bytes as a file may hold them: ASCII, NULs anywhere, UTF-8 lead bytes with and without their continuation
+/// bytes, stray continuation bytes (also in first place), bytes no UTF-8 text contains; never 'K' (the probe's marker)
+fn wild_title(rng: &mut Rng) -> [u8; 11] {
+  let mut t = [0u8; 11];
+  let n = 1 + rng.below(11) as usize;
+  let mut i = 0;
+  while i < n {
+    let lead: u8 = match rng.below(12) {
+      0 | 1 => 0x20 + (rng.u8() % 0x5f),
+      2 => 0,
+      3 => 0x80 + (rng.u8() % 0x40),
+      4 => 0xc2 + (rng.u8() % 0x1e),
+      5 => *rng.pick(&[0xe0u8, 0xe1, 0xec, 0xed, 0xee, 0xef]),
+      6 => *rng.pick(&[0xf0u8, 0xf1, 0xf3, 0xf4]),
+      7 => *rng.pick(&[0xc0u8, 0xc1, 0xf5, 0xf8, 0xfe, 0xff]),
+      _ => rng.u8(),
+    };
+    t[i] = lead; i += 1;
+    // mostly well-formed continuations, sometimes cut short or out of the lead byte's range
+    let want = match lead { 0xc2..=0xdf => 1, 0xe0..=0xef => 2, 0xf0..=0xf4 => 3, _ => 0 };
+    let have = if rng.chance(1, 3) { rng.below(want as u64 + 1) as usize } else { want };
+    for k in 0..have {
+      if i >= n { break; }
+      t[i] = if k == 0 && rng.chance(1, 3) { *rng.pick(&[0x80u8, 0x8f, 0x90, 0x9f, 0xa0, 0xbf]) } else { 0x80 + (rng.u8() % 0x40) };
+      i += 1;
+    }
+  }
+  for b in t.iter_mut() { if *b == b'K' { *b = b'L'; } }
+  t
+}
+
+/// titles that made the unfixed `get_title` misbehave (regression corpus, runs first in its group)
+const BAD_TITLES: &[&[u8]] = &[b"\x80", b"\x80\x80\x80", b"\xbf\xbf", b"ABC\xff", b"ABC\xc9", b"\xf0\x90",
+  b"ABCDEFGHIJ\xe2", b"\xe0\x80A", b"\xed\xa0\x80", b"\xf4\x90\x80\x80", b"A\x00B\x00\x00", b"\x00\x80"];
+
+/// a header for the file stream: entry NOP; JP 0x150, random bytes elsewhere, valid checksum; the title is ASCII in
+/// half of the cases and any bytes (`wild_title`) in the other half
 fn file_header(rng: &mut Rng, typ: u8, romcode: u8, ramcode: u8) -> [u8; 80] {
   let mut h = random_header(rng);
   h[0..4].copy_from_slice(&[0x00, 0xc3, 0x50, 0x01]);
-  h[OFF_TITLE..OFF_TITLE + 11].copy_from_slice(&ascii_title(rng));
+  let title = if rng.chance(1, 2) { ascii_title(rng) } else { wild_title(rng) };
+  h[OFF_TITLE..OFF_TITLE + 11].copy_from_slice(&title);
   h[OFF_TYPE] = typ; h[OFF_ROM] = romcode; h[OFF_RAM] = ramcode;
   h[OFF_CHK] = good_checksum(&h);
   h
@@ -237,6 +294,15 @@ fn gen_cases(opts: &Opts) -> Vec<Case> {
   let t = opts.thorough;
   // (a) a path that does not exist
   cs.push(Case { missing: true, hdr: file_header(&mut rng, 1, 0, 0), len: 0, pb: 1 });
+  // (a') titles that are not UTF-8, valid checksum, complete file of a supported type: must load
+  for (k, bt) in BAD_TITLES.iter().enumerate() {
+    let typ = [0x00u8, 0x01, 0x13][k % 3];
+    let mut h = file_header(&mut rng, typ, (k % 2) as u8, 0);
+    for b in h[OFF_TITLE..OFF_TITLE + 11].iter_mut() { *b = 0; }
+    h[OFF_TITLE..OFF_TITLE + bt.len()].copy_from_slice(bt);
+    h[OFF_CHK] = good_checksum(&h);
+    cs.push(mk_case(h, declared(h[OFF_ROM])));
+  }
   // (b) lengths around 0x100, 0x150 and the declared size, valid headers
   let cfgs: &[(u8, u8)] = if t { &[(0x00, 0), (0x01, 0), (0x01, 1), (0x03, 5), (0x11, 2), (0x13, 6), (0x01, 0x52), (0x12, 0x54), (0x01, 8), (0x05, 1), (0x01, 0x60)] }
                           else { &[(0x00, 0), (0x01, 1), (0x13, 2), (0x05, 1)] };
